@@ -18,7 +18,7 @@ use std::time::Duration;
 use undermoon::protocol::{BulkStr, Resp, RespVec};
 
 #[derive(Clone, Copy, Debug, PartialEq, Eq)]
-enum Kind {
+pub enum Kind {
     Register,
     Counter,
     List,
@@ -31,7 +31,7 @@ struct KeyInfo {
     in_range: bool,
 }
 
-fn to_argv(key: &[u8], op: &KOp, ttl_s: u64) -> Vec<Vec<u8>> {
+pub fn to_argv(key: &[u8], op: &KOp, ttl_s: u64) -> Vec<Vec<u8>> {
     let b = |s: &str| s.as_bytes().to_vec();
     match op {
         KOp::Get => vec![b("GET"), key.to_vec()],
@@ -48,7 +48,7 @@ fn to_argv(key: &[u8], op: &KOp, ttl_s: u64) -> Vec<Vec<u8>> {
 }
 
 /// Maps a reply to the model's reply; None = the command was certainly not executed.
-fn to_kret(r: &RespVec) -> Option<KRet> {
+pub fn to_kret(r: &RespVec) -> Option<KRet> {
     match r {
         Resp::Simple(s) if s == b"OK" => Some(KRet::Ok),
         Resp::Simple(_) => Some(KRet::Unknown),
@@ -67,7 +67,7 @@ fn to_kret(r: &RespVec) -> Option<KRet> {
     }
 }
 
-fn gen_op(rng: &mut Rng, kind: Kind, client: usize, n: u64) -> KOp {
+pub fn gen_op(rng: &mut Rng, kind: Kind, client: usize, n: u64) -> KOp {
     let uniq = |p: &str| format!("{}c{}n{}", p, client, n).into_bytes();
     match kind {
         Kind::Register => match rng.below(12) {
